@@ -151,6 +151,7 @@ func runC01(r *Run) {
 func runC03(r *Run) {
 	runChaosProp(r, "C03", func(o *chaosOpts, g *Rng) {
 		o.WriteHeavy = true
+		o.TriggerFence = g.Chance(50)
 		o.CoordCrash = g.Chance(30)
 		o.Yields = true
 	})
@@ -160,7 +161,10 @@ func runC04(r *Run) {
 	runChaosProp(r, "C04", func(o *chaosOpts, g *Rng) {
 		o.WriteHeavy = true
 		o.Yields = true
+		o.TriggerFence = true
 		o.Clients = g.Range(3, 6)
+		o.CoordCrash = true // a restarted coordinator re-elects over a healthy, busy leader
+		o.NetLoss = false
 	})
 }
 
